@@ -228,6 +228,8 @@ TRUE = ("const", True)
 FALSE = ("const", False)
 
 COMMUTATIVE_CALLS = {"max", "min"}
+MUTATORS = {"append", "extend", "add", "update", "pop", "sort", "reverse", "remove", "insert", "clear",
+            "setdefault", "popitem", "discard"}
 # calls that create a fresh object with identity: two textually equal calls are
 # different objects, so the bound variable name is kept as the allocation site
 ALLOCATORS = {"Queue", "JoinableQueue", "SimpleQueue", "Event", "Process", "Lock", "RLock",
@@ -343,11 +345,8 @@ class Evaluator:
                     elif isinstance(n, ast.With):
                         tgts = [i.optional_vars for i in n.items if i.optional_vars is not None]
                     for t in tgts:
-                        for x in ast.walk(t):
-                            if isinstance(x, ast.Name):
-                                names.add(x.id)
-                            elif isinstance(x, (ast.Attribute, ast.Subscript)) and isinstance(x.ctx, ast.Store):
-                                names.add(("lv", ast.dump(x)))
+                        for x in _target_names(t):
+                            names.add(x)
         return names
 
     def _havoc(self, env, stmts, tag):
@@ -506,6 +505,7 @@ class Evaluator:
     def _bind(self, target, v, env, pc, res):
         if isinstance(target, ast.Name):
             env[target.id] = v
+            res.events.append(Event("assign", ("tuple", (("sym", target.id), v)), target, pc))
         elif isinstance(target, (ast.Tuple, ast.List)):
             n = len(target.elts)
             for i, t in enumerate(target.elts):
@@ -754,6 +754,11 @@ class Evaluator:
         t = ("call", f, tuple(args), tuple(kws))
         ev = Event("call", t, n, pc)
         res.events.append(ev)
+        # a mutating method call on a local container invalidates its literal value
+        if isinstance(n.func, ast.Attribute) and isinstance(n.func.value, ast.Name) and n.func.attr in MUTATORS:
+            cur = env.get(n.func.value.id)
+            if cur is not None and cur[0] in ("list", "tuple", "dict", "op"):
+                env[n.func.value.id] = ("sym", n.func.value.id)
         # bounded inlining of pure project helpers
         target = None
         if f[0] == "sym" and f[1] in self.inline:
@@ -806,6 +811,26 @@ class Evaluator:
                 cond = ("op", "and", tuple(x[0] if x[1] else ("op", "not", (x[0],)) for x in conds))
             out = ("ite", cond, v, out)
         return out
+
+
+def _target_names(t):
+    """Names (re)bound or mutated by an assignment target: plain names, and
+    the base container of subscript/attribute stores (not names in indices)."""
+    if isinstance(t, ast.Name):
+        return [t.id]
+    if isinstance(t, (ast.Tuple, ast.List)):
+        out = []
+        for e in t.elts:
+            out += _target_names(e)
+        return out
+    if isinstance(t, ast.Starred):
+        return _target_names(t.value)
+    if isinstance(t, (ast.Subscript, ast.Attribute)):
+        b = t.value
+        while isinstance(b, (ast.Subscript, ast.Attribute)):
+            b = b.value
+        return [b.id] if isinstance(b, ast.Name) and b.id != "self" else []
+    return []
 
 
 def _as_load(t):
